@@ -32,3 +32,29 @@ package server
 //@   ensures [slot-returned] s.stats.currentConnections == old(s.stats.currentConnections)
 //@ func (*Server).listenerLoop
 //@   at-call handleConnection [below-limit] s.stats.currentConnections < config.Server.MaxConnections
+
+// ---- authentication (C09) --------------------------------------------------------
+// ufs_ssh_ConnMetadata_User(id(c)) is c.User(); ufb_resolves(host, ip): ip is one
+// of the addresses net.LookupIP returns for host.
+
+// A background job may log in only with its own job name as password and from
+// an address one of its AllowFrom hosts resolves to.
+//@ func (*Server).backgroundCanSSH
+//@   assigns nothing
+//@   ensures [job-and-address] implies(result, jobName == allowedJobName && exists(i, 0, len(allowFrom), ufb_resolves(allowFrom[i], remoteIP)))
+
+// The password callback grants (returns a nil error) only to the three service
+// users, each under its own condition; everything else is rejected.
+//@ func (*Server).Callback
+//@   requires [conn] !isnil(c)
+//@   assigns nothing
+//@   ensures [only-service-users] implies(isnil(result1), ufs_ssh_ConnMetadata_User(id(c)) == config.HealthUser || ufs_ssh_ConnMetadata_User(id(c)) == config.ScheduleUser || ufs_ssh_ConnMetadata_User(id(c)) == config.ContinuousUser)
+//@   ensures [health-password] implies(isnil(result1) && ufs_ssh_ConnMetadata_User(id(c)) == config.HealthUser, str(authPayload) == config.HealthUser)
+//@   ensures [schedule-job] implies(isnil(result1) && ufs_ssh_ConnMetadata_User(id(c)) == config.ScheduleUser, exists(j, 0, len(config.Server.Schedule), config.Server.Schedule[j].Name == str(authPayload)))
+//@   ensures [continuous-job] implies(isnil(result1) && ufs_ssh_ConnMetadata_User(id(c)) == config.ContinuousUser, exists(j, 0, len(config.Server.Continuous), config.Server.Continuous[j].Name == str(authPayload)))
+//@   ensures [no-permissions-object] result0 == nil
+
+// The health user gets the health-only handler.
+//@ func (*Server).handleRequests
+//@   requires [user] user != nil
+//@   at-call NewServerHandler [not-the-health-user] user.Name != config.HealthUser
